@@ -133,7 +133,7 @@ PROPS['C13'] = dict(
 
 PROPS['C14'] = dict(
     level='other', harness='h14', min_t1=0,
-    explanation='T1 (unbounded): transform_journal / transform_balances build their Select from the statement alone: FROM (and for BALANCES, WHERE) passed through as the same AST, the JOURNAL account pattern is the constant right operand of a regex match on the account column (never spliced into query text), every clause the statement cannot express is absent. Bounded (T3): BALANCES / JOURNAL against the per-account sums and the posting register computed from the plain SELECT over the same FROM clause, for every summary function, FROM clause, WHERE condition and account pattern of the scope; PRINT output re-loaded with the Beancount loader and compared directive by directive.',
+    explanation='T1 (unbounded): transform_journal / transform_balances build their Select from the statement alone: FROM (and for BALANCES, WHERE) passed through as the same AST, the JOURNAL account pattern is the constant right operand of a regex match on the account column (never spliced into query text), every clause the statement cannot express is absent; Compiler._balances / _journal compile to exactly what the expansion compiles to; Compiler._print reads the entries table of the connection under the FROM clause of the statement itself; execute_print hands the printer the directives of the rows whose FROM expression is absent or true (truth value), in table order (loop invariant against a recursive specification, obligation on the arguments of the external call). Bounded (T3): BALANCES / JOURNAL against the per-account sums and the posting register computed from the plain SELECT over the same FROM clause, for every summary function, FROM clause, WHERE condition and account pattern of the scope; PRINT output re-loaded with the Beancount loader and compared directive by directive.',
     trusted_base=['Beancount printer and loader', 'textwrap.shorten'], assumptions=[],
 )
 
@@ -192,12 +192,12 @@ TECHNIQUE = {
            'no function contract on it is discharged - nothing is counted as proved',
     'C07': _T1 + 'description / projection of execute_select, target compilation and naming (_compile_targets, get_target_name), hidden GROUP BY / ORDER BY targets, written targets first (_compile_select); ' + _T3,
     'C08': _T1 + 'frame of the compiler state across nested SELECTs (Compiler._select), IN-subquery node caching; structural obligation that no expression handler writes Compiler.table; composition: ' + _T3,
-    'C09': _T1 + 'placeholder / literal constants and constant folding of unary, binary and function nodes in the compiler (folded value = the node evaluated), Cursor.execute state re-establishment, EvalConstant, BeanTable.update/prepare frames; placeholder numbering and histories: ' + _T3,
+    'C09': _T1 + 'placeholder / literal constants and constant folding of unary, binary and function nodes in the compiler (folded value = the node evaluated), numbering of positional placeholders in textual order (Compiler.compile, sorted() through its permutation witnesses), Cursor.execute state re-establishment, EvalConstant, BeanTable.update/prepare frames; named placeholders and histories: ' + _T3,
     'C10': _T1 + 'representation invariant and DB-API postcondition of every Cursor method, Column sequence protocol (all proved, unbounded)',
     'C11': _T1 + '32 column accessors against the naming rule; table iteration: ' + _T3,
     'C12': _T1 + 'aggregator initialize / slot frames; the inventory algebra is Beancount (trusted): ' + _T3,
     'C13': _T1 + 'BeanTable.prepare (order and iff-conditions of open/close/clear, reads clause, no writes), BeanTable.update, _compile_from (the table is qualified with exactly the written qualifiers); balance preservation is a theorem about beancount.ops.summarize: ' + _T3,
-    'C14': _T1 + 'transform_journal / transform_balances (clauses passed through, account pattern as a constant operand, no other clauses); result equality with the SELECT expansions and PRINT round trip: ' + _T3,
+    'C14': _T1 + 'transform_journal / transform_balances (clauses passed through, account pattern as a constant operand, no other clauses), Compiler._balances / _journal (compile to what the expansion compiles to), Compiler._print (entries table under the statement FROM clause), execute_print (directives selected by truth value, in table order, handed to the printer); result equality with the SELECT expansions and PRINT round trip: ' + _T3,
     'C15': _T1 + 'Compiler._compile_pivot_by (references resolve to selected targets, rejection rule); the reshaping itself: ' + _T3,
     'C16': _T1 + 'two-phase width protocol of the column renderers (update widens and covers, prepare fixes the width, decimals: integral/fractional maxima); table layout: ' + _T3,
     'C17': _T1 + 'the four numberify converters; numberify_results: ' + _T3,
@@ -206,8 +206,8 @@ TECHNIQUE = {
     'C20': 'ownership / frame obligations generated from the ast of /repo for every write site reachable from the execution entry points (structural, decided syntactically, no solver); '
            'deterministic two/three-thread schedules as bounded native stand-in',
 }
-MIN_T1 = {'C01': 75, 'C02': 85, 'C03': 42, 'C04': 80, 'C05': 140, 'C06': 0, 'C07': 88, 'C08': 26, 'C09': 30, 'C10': 34, 'C11': 47, 'C12': 3, 'C13': 20,
-          'C14': 5, 'C15': 5, 'C16': 24, 'C17': 5, 'C18': 58, 'C19': 39, 'C20': 100}
+MIN_T1 = {'C01': 75, 'C02': 85, 'C03': 42, 'C04': 80, 'C05': 140, 'C06': 0, 'C07': 88, 'C08': 26, 'C09': 38, 'C10': 34, 'C11': 47, 'C12': 3, 'C13': 20,
+          'C14': 14, 'C15': 5, 'C16': 24, 'C17': 5, 'C18': 58, 'C19': 39, 'C20': 100}
 for _p, _c in PROPS.items():
     _c['technique'] = TECHNIQUE[_p]
     _c['min_t1'] = MIN_T1[_p]
